@@ -40,6 +40,10 @@ def chars_of_pat(p):
         k = q.get("k")
         if k == "PExpr" and q["e"].get("k") == "PELit" and q["e"]["lit"].get("t") == "char":
             out.add(q["e"]["lit"]["v"])
+        elif k == "PExpr" and q["e"].get("k") == "PEPath" and isinstance(CONST_VALUES.get(q["e"].get("res", {}).get("path")), str) and \
+                len(CONST_VALUES[q["e"]["res"]["path"]]) == 1 and norm(q.get("ty", "char")).lstrip("&") == "char":
+            # a char constant used as a pattern
+            out.add(CONST_VALUES[q["e"]["res"]["path"]])
         elif k == "PRange" and q.get("lo", {}).get("k") == "PELit" and q.get("hi", {}).get("k") == "PELit":
             lo, hi = q["lo"]["lit"]["v"], q["hi"]["lit"]["v"]
             if "Included" not in q.get("end", ""):
